@@ -1,6 +1,6 @@
 /- Conversion of wire JSON into the model's `J` and `S` (driver boundary; not part of the model). -/
 import KinModel.Drv.Util
-import KinModel.Schema.Schema
+import KinModel.Schema.Events
 open Lean
 namespace KinModel.Drv
 open KinModel.Schema
@@ -54,5 +54,40 @@ def envOf (j : Json) : Env :=
   let fm := triples j "formats"
   { regex := fun p s => match rx.find? (fun t => t.1 == p && t.2.1 == s) with | some t => t.2.2 | none => none,
     strFormat := fun f s => match fm.find? (fun t => t.1 == f && t.2.1 == s) with | some t => t.2.2 | none => none }
+
+end KinModel.Drv
+
+namespace KinModel.Drv
+open KinModel.Schema Lean
+
+/-- canonical wire form of a model value: numbers as exact fractions {"$num":"n/d"} -/
+partial def fromJ : J → Json
+  | .null => .null
+  | .bool b => .bool b
+  | .num q => Json.mkObj [("$num", Json.str s!"{q.num}/{q.den}")]
+  | .str s => .str s
+  | .arr xs => .arr (xs.map fromJ).toArray
+  | .obj kvs => Json.mkObj (kvs.map (fun (k, v) => (k, fromJ v)))
+
+def tokStr : Tok → String | .key k => k | .idx i => toString i
+
+def fragJson : Frag → Json
+  | .lit s => Json.mkObj [("lit", Json.str s)]
+  | .schemaNum q => Json.mkObj [("g", Json.str s!"{q.num}/{q.den}")]
+  | .schemaNat n => Json.mkObj [("d", Json.num (JsonNumber.fromNat n))]
+  | .schemaStr s => Json.mkObj [("s", Json.str s)]
+  | .schemaQ s => Json.mkObj [("q", Json.str s)]
+  | .schemaEnum vs => Json.mkObj [("enum", Json.arr (vs.map fromJ).toArray)]
+  | .schemaTypes ts => Json.mkObj [("types", jstrs ts)]
+  | .valueKey k => Json.mkObj [("key", Json.str k)]
+  | .validatorText s => Json.mkObj [("validator", Json.str s)]
+
+def errJson (e : Err) : Json :=
+  Json.mkObj ([("field", Json.str e.field), ("pointer", jstrs (e.pointer.map tokStr)),
+               ("reason", Json.arr (e.reason.map fragJson).toArray)] ++
+              (match e.value with | some v => [("value", fromJ v)] | none => []))
+
+def resJson (r : Res) : Json :=
+  Json.mkObj [("ok", Json.bool r.isOk), ("errs", Json.arr (r.errs.map errJson).toArray)]
 
 end KinModel.Drv
